@@ -819,11 +819,13 @@ def decref (key : Val) (n : Int) : M PV := do
     modify (fun st => { st with table := if s.cnt < n then tableRemove st.table key else tableSet st.table key (s.cnt - n) })
     pure (.imm .none)
 
-/-- `_handle_del(obj, count)`: `if type(count) is not int: raise TypeError` (nothing but an exact int is ever compared
-or subtracted under the table's lock), then `get_id_pack(obj)` and `decref` -/
+/-- `_handle_del(obj, count)`: `if type(count) is not int or count < 1: raise TypeError` (nothing but an exact int is
+ever compared or subtracted under the table's lock, and a release gives back at least one reference: zero or a negative
+count would raise the stored count), then `get_id_pack(obj)` and `decref` -/
 def hDelCore (obj count : PV) : M PV :=
   match count with
-  | .imm (.int n) => do
+  | .imm (.int n) =>
+    if n < 1 then throwE .typeError else do
     let k ← prim { kind := .idpack, subj := obj }
     match k with
     | .imm key => decref key n
